@@ -350,8 +350,9 @@ def battery_ob(tier, seed):
             if not r.get('ok') or r['result']['got']:
                 break
         if not r.get('ok'):
-            return Verdict('refuted' if r.get('exception') not in (None, 'NoResult', 'Timeout') else 'unknown', 'bounded: real torch battery', time.time() - t0,
-                           'the axiom battery raised on the real code: %s' % str(r)[:400], witness={'exception': r.get('exception')}, replay={'real': r, 'confirmed': r.get('exception') not in (None, 'NoResult', 'Timeout')})
+            real_raise = r.get('exception') not in (None, 'NoResult', 'Timeout') and '/pfhedge/' in (r.get('traceback') or '')
+            return Verdict('refuted' if real_raise else 'unknown', 'bounded: real torch battery', time.time() - t0,
+                           'the axiom battery raised %s: %s' % ('inside the real code' if real_raise else '(in the harness, not in pfhedge)', str(r)[:400]), witness={'exception': r.get('exception')}, replay={'real': r, 'confirmed': real_raise})
         got = r['result']['got']
         if got:
             return Verdict('refuted', 'bounded: real torch battery', time.time() - t0, '%d axiom instance(s) fail, first: [%s] %s' % (len(got), got[0]['axiom'], got[0]['detail'][:300]),
